@@ -275,6 +275,28 @@ pub fn err_class(msg: &str) -> &'static str {
     }
 }
 
+/// "...ResourceLimitExceeded(kind=K, limit=L, observed=O, stage=S)" -> {kind, limit, observed, stage}
+pub fn parse_limit_err(msg: &str) -> J {
+    let Some(i) = msg.find("ResourceLimitExceeded(") else { return json!({"kind": "none", "limit": 0, "observed": 0, "stage": ""}) };
+    let inner = &msg[i + "ResourceLimitExceeded(".len()..];
+    let inner = inner.trim_end_matches(')');
+    let mut kind = String::new();
+    let mut stage = String::new();
+    let (mut limit, mut observed) = (0i64, 0i64);
+    for part in inner.split(", ") {
+        if let Some((k, v)) = part.split_once('=') {
+            match k {
+                "kind" => kind = v.to_string(),
+                "limit" => limit = v.parse().unwrap_or(-1),
+                "observed" => observed = v.parse().unwrap_or(-1),
+                "stage" => stage = v.to_string(),
+                _ => {}
+            }
+        }
+    }
+    json!({"kind": kind, "limit": limit.min(2_000_000_000), "observed": observed.min(2_000_000_000), "stage": stage})
+}
+
 pub struct Outcome {
     pub out: &'static str, // rows | err | panic
     pub cols: Vec<String>,
@@ -365,7 +387,7 @@ pub fn graph_dump(db: &Db) -> J {
                     }
                 }
             }
-            labels.sort();
+            // engine order is kept: the first label is the one the node table persists
             let mut props = Vec::new();
             if let Some(m) = snap.node_properties(n) {
                 for (k, v) in m {
@@ -411,7 +433,7 @@ pub fn run_sessions(sessions: &[J], out: &mut dyn Write, scratch: &Path) -> J {
         let dir = scratch.join("cy");
         let _ = std::fs::remove_dir_all(&dir);
         std::fs::create_dir_all(&dir).unwrap();
-        let db = match Db::open(dir.join("g")) {
+        let mut db = match Db::open(dir.join("g")) {
             Ok(d) => d,
             Err(e) => {
                 writeln!(out, "{}", json!({"ev": "session", "sid": sid, "open": e.to_string()})).unwrap();
@@ -452,7 +474,36 @@ pub fn run_sessions(sessions: &[J], out: &mut dyn Write, scratch: &Path) -> J {
             let q = c["query"].as_str().unwrap_or("");
             let mode = c["mode"].as_str().unwrap_or("read");
             learn_rel_names(&db);
-            let o = if mode == "write" { run_write(&db, q, &p) } else { run_read(&db, q, &p) };
+            let o = if mode == "admin" {
+                let r: Result<(), String> = if q == "#compact" {
+                    db.compact().map_err(|e| e.to_string())
+                } else if q == "#checkpoint" {
+                    db.checkpoint().map_err(|e| e.to_string())
+                } else if let Some(rest) = q.strip_prefix("#index ") {
+                    let mut it = rest.split_whitespace();
+                    let (l, k) = (it.next().unwrap_or(""), it.next().unwrap_or(""));
+                    db.create_index(l, k).map_err(|e| e.to_string())
+                } else if q == "#reopen" || q == "#close-reopen" {
+                    // replace the handle: drop (or close) the old one first
+                    let path = dir.join("g");
+                    let tmp = std::mem::replace(&mut db, Db::open(scratch.join("cy-tmp")).expect("tmp db"));
+                    let cr = if q == "#close-reopen" { tmp.close().map_err(|e| e.to_string()) } else { drop(tmp); Ok(()) };
+                    match Db::open(&path) {
+                        Ok(d) => {
+                            db = d;
+                            let _ = std::fs::remove_dir_all(scratch.join("cy-tmp"));
+                            cr
+                        }
+                        Err(e) => Err(format!("reopen failed: {e}")),
+                    }
+                } else {
+                    Err(format!("unknown admin op {q}"))
+                };
+                match r {
+                    Ok(()) => Outcome { out: "rows", cols: vec![], rows: vec![], err: String::new(), count: 0, ms: 0 },
+                    Err(e) => Outcome { out: "err", cols: vec![], rows: vec![], err: e, count: 0, ms: 0 },
+                }
+            } else if mode == "write" { run_write(&db, q, &p) } else { run_read(&db, q, &p) };
             n_cases += 1;
             if o.out != "rows" {
                 n_err += 1;
@@ -468,6 +519,20 @@ pub fn run_sessions(sessions: &[J], out: &mut dyn Write, scratch: &Path) -> J {
                     rq.push(o2.to_json());
                 }
                 ev["resq"] = J::Array(rq);
+            }
+            if let Some(ol) = c.get("options_list").and_then(|x| x.as_array()) {
+                let mut rl = Vec::new();
+                for o in ol {
+                    let mut c2 = c.clone();
+                    c2["options"] = o.clone();
+                    let (p2, _) = build_params(&c2);
+                    let o2 = run_read(&db, q, &p2);
+                    let mut j = o2.to_json();
+                    j["options"] = o.clone();
+                    j["limit_err"] = parse_limit_err(&o2.err);
+                    rl.push(j);
+                }
+                ev["resl"] = J::Array(rl);
             }
             if c.get("dump").and_then(|x| x.as_bool()).unwrap_or(false) {
                 ev["graph"] = graph_dump(&db);
